@@ -74,7 +74,9 @@ var c19Pool = []keyPair{}
 
 func c19Keys() []keyPair {
 	if len(c19Pool) == 0 {
-		c19Pool = []keyPair{keyFor(icose.EdDSA, 0), keyFor(icose.EdDSA, 1), keyFor(icose.ES256, 0), keyFor(icose.PS256, 0), keyFor(icose.ES384, 0), keyFor(icose.ES512, 0), oddRSAKey(icose.PS384, 0)}
+		c19Pool = []keyPair{keyFor(icose.EdDSA, 0), keyFor(icose.EdDSA, 1), keyFor(icose.ES256, 0), keyFor(icose.PS256, 0), keyFor(icose.ES384, 0), keyFor(icose.ES512, 0), oddRSAKey(icose.PS384, 0),
+			// an ECDSA algorithm over ANOTHER algorithm's usual curve (go-cose signs and verifies any pairing)
+			keyForCurve(icose.ES256, icose.ES384, 0), keyForCurve(icose.ES512, icose.ES256, 1)}
 	}
 	return c19Pool
 }
@@ -95,7 +97,16 @@ type c19Machine struct {
 	goodSigns                 int
 }
 
-func (mc *c19Machine) log(f string, a ...any) { mc.trace = append(mc.trace, fmt.Sprintf(f, a...)) }
+func (mc *c19Machine) log(f string, a ...any) {
+	mc.trace = append(mc.trace, fmt.Sprintf(f, a...))
+	if c19Stall != nil {
+		c19Stall.Beat("done: "+f, a...)
+	}
+}
+
+// c19Stall: "a failed attempt does not prevent a later successful one" - an
+// operation that never returns after a failed one prevents it (stall_test.go)
+var c19Stall *stallGuard
 
 func (mc *c19Machine) fail(t *rapid.T, f string, a ...any) {
 	t.Fatalf("C19 violated: %s\n  history: %s", fmt.Sprintf(f, a...), strings.Join(mc.trace, " ; "))
@@ -174,6 +185,9 @@ func (mc *c19Machine) verifyAll(t *rapid.T) {
 func c19Run(t *rapid.T, st *Stats) {
 	mc := &c19Machine{ev: &psatoken.Evidence{}, env: c19Env{kind: "none", key: -1}}
 	keys := c19Keys()
+	if c19Stall != nil {
+		c19Stall.Begin("fresh Evidence (the entries below are the operations that RETURNED; the one that does not is on the parked goroutine's stack)")
+	}
 	// precondition of the property: claims are attached
 	m0 := GenValid(t, drawProf(t), false)
 	c0, _ := m0.BuildLiteral()
@@ -641,6 +655,8 @@ func TestC19_EvidenceHistories(t *testing.T) {
 			st.Case("prelude|slow-signer|refused", "slow-signer")
 		}
 	}
+	c19Stall = watchStalls("C19", "TestC19_EvidenceHistories")
+	defer c19Stall.Stop()
 	rapid.Check(t, func(t *rapid.T) { c19Run(t, st) })
 }
 
